@@ -126,7 +126,8 @@ PROPS = {
     "C01": dict(
         modules=VAL_MODS,
         only_units=["parse_info", "assert_picture_number_incremented_as_expected", "assert_major_version_is_minimal", "fragment_header", "fragment_data",
-                    "fragment_parse", "parse_sequence", "picture_header", "assert_parse_code_in_sequence"],
+                    "fragment_parse", "parse_sequence", "picture_header", "assert_parse_code_in_sequence", "record_bitstream_start", "record_bitstream_finish",
+                    "sequence_header"],
         level="proof",
         assumptions=[
             "direction proved: ACCEPTED => structurally conformant.  Each rule of the statement is a postcondition on normal return of the function that implements it "
@@ -263,12 +264,38 @@ PROPS = {
                  "generated streams incl. field- and bit-level mutations).  The lemmas rest on C20's contracts of the real functions.",
         ),
     ),
+    "C07": dict(
+        modules=["c07_autofill"],
+        level="proof",
+        assumptions=[
+            "PROVED on the real autofill_picture_number, for ALL stream descriptions (any number of sequences and data units, any mixture of present / absent dictionaries and "
+            "entries; unbounded): for an arbitrary data unit of an arbitrary sequence - an explicitly supplied picture number (present and not AUTO) is left unchanged; an "
+            "omitted or AUTO number of a picture, or of the first fragment of a picture (fragment_slice_count 0, also when the count is omitted), becomes the previous number "
+            "+ 1 modulo 2**32; of a later fragment it repeats the previous number; data units that are not pictures or fragments neither consume nor change a number; "
+            "numbering restarts from initial_picture_number in every sequence; no KeyError / TypeError on any shape of description; only the five entries picture_parse, "
+            "fragment_parse, picture_header, fragment_header, picture_number of any dictionary are ever written (frame)",
+            "model: a picture_number entry holds an integer or the AUTO sentinel (optional int whose None is AUTO); dictionaries of the description tree have static keys; "
+            "the clauses are ghost assertions at the end of the loop body (state of the data unit before vs after), not a quantified postcondition over the whole tree",
+            "BOUNDED (never counted as proved): parse offsets (autofill_parse_offsets, autofill_parse_offsets_finalize: lists of index pairs, bytes payloads, writer seeks), "
+            "autofill_major_version (walks ~10 dictionaries per data unit through version_constraints), defaults of omitted fields, and the end-to-end behaviour through the "
+            "serialiser - see the clauses T, P, V, S, X of bounded/c07_autofill.py in bounded_checks",
+        ],
+        manifest=dict(
+            category="proof",
+            technique="contract-based deductive verification of autofill_picture_number (loop rule over the two data-unit loops, ghost snapshot of a data unit before the body, "
+                      "assertions written from the statement after it, frame condition on the description tree; pyvc + z3); the other clauses as a native bounded stand-in",
+            text="The picture-number clause of the statement is proved for all stream descriptions on the real function: explicit numbers unchanged, automatic numbers count up "
+                 "from the previous picture modulo 2**32, repeat across the later fragments of a picture, restart per sequence; nothing else in the description is touched.",
+            note="Parse offsets, major_version, defaults and the end-to-end clauses are bounded only (exhaustive small scope + seeded random descriptions, oracle from the "
+                 "statement / ST 2042-1).",
+        ),
+    ),
 }
 
 
 # Properties registered in MANIFEST.json (tools/mkmanifest.py).  A bounded module under development contributes to PROPS (so
 # `./verif check <pid>` can be run on it) but is not claimed until its id is listed here.
-CLAIMED = ["C01", "C02", "C06", "C07", "C09", "C10", "C11", "C12", "C13", "C14", "C17", "C18", "C19", "C20", "C21", "C23", "C25", "C27", "C28"]
+CLAIMED = ["C01", "C02", "C04", "C06", "C07", "C08", "C09", "C10", "C11", "C12", "C13", "C14", "C17", "C18", "C19", "C20", "C21", "C23", "C25", "C27", "C28"]
 
 BROKEN = {}  # pid -> import error of a bounded module that (by its file name cNN_...) serves that property
 
